@@ -65,6 +65,7 @@ struct Scen {
 	base_conf: u32,
 	kinds: Vec<&'static str>,
 	/// the commitment transaction that does not play role 1 (interned as 6)
+	min_depth: u32,
 	other_commit: Option<Txid>,
 	/// transactions the node under test had broadcast before the snapshot was taken
 	seed_txs: Vec<Transaction>,
@@ -101,13 +102,14 @@ fn restore(node: &mut N, ucfg: &UserConfig, mgr: &[u8], mons: &[Vec<u8>]) {
 	node.chain_monitor.added_monitors.lock().unwrap().clear();
 }
 
-fn mk_net(chan_type: &str) -> Vec<N> {
+fn mk_net(chan_type: &str, min_depth: u32) -> Vec<N> {
 	let cfgs = leak(create_chanmon_cfgs(2));
 	let node_cfgs = leak(create_node_cfgs(2, cfgs));
 	let mut uc = test_legacy_channel_config();
 	if chan_type == "anchors" {
 		uc.channel_handshake_config.negotiate_anchors_zero_fee_htlc_tx = true;
 	}
+	uc.channel_handshake_config.minimum_depth = min_depth;
 	let ucs = vec![Some(uc.clone()), Some(uc)];
 	let mgrs = leak(create_node_chanmgrs(2, node_cfgs, &ucs));
 	let nodes = create_network(2, node_cfgs, mgrs);
@@ -131,7 +133,7 @@ fn quiet(node: &N) {
 
 /// Channel just funded (funding_signed exchanged, funding tx broadcast) but unconfirmed.
 fn prep_fund(name: &str, nut: usize) -> Scen {
-	let nodes = mk_net("static");
+	let nodes = mk_net("static", 3);
 	let tx = create_chan_between_nodes_with_value_init(&nodes[0], &nodes[1], 1_000_000, 300_000_000);
 	let funding_txid = tx.compute_txid();
 	let chan_id = ChannelId::v1_from_funding_txid(funding_txid.as_ref(), 0);
@@ -148,7 +150,7 @@ fn prep_fund(name: &str, nut: usize) -> Scen {
 		txs: vec![None, Some(tx), Some(theirs[0].clone()), None, Some(ours[0].clone())],
 		funding_txid, chan_id, hashes: vec![], failtrig: vec![], minh2: 0, funding_role: true, base_conf: 0,
 		kinds: vec!["", "funding", "counterparty_commitment", "", "holder_commitment"],
-		other_commit: None, seed_txs: vec![],
+		other_commit: None, seed_txs: vec![], min_depth: 3,
 	}
 }
 
@@ -169,7 +171,7 @@ fn route_with_cltv(from: &N, to: &N, amt: u64, final_cltv: u32) -> (PaymentPreim
 fn prep_open(name: &str, holder: bool, force_close: bool) -> Scen {
 	const EXP: u32 = 2;
 	let nut = 0usize;
-	let nodes = mk_net("static");
+	let nodes = mk_net("static", 6);
 	let (_, _, chan_id, ftx) = create_announced_chan_between_nodes_with_value(&nodes, 0, 1, 1_000_000, 400_000_000);
 	let funding_txid = ftx.compute_txid();
 	let h0 = nodes[0].best_block_info().1;
@@ -204,7 +206,7 @@ fn prep_open(name: &str, holder: bool, force_close: bool) -> Scen {
 		name: name.to_string(), nut, nodes, mgr_bytes, mon_bytes, base_blocks, ucfg, txs: vec![],
 		funding_txid, chan_id, hashes: vec![hash_out1, hash_out2, hash_in1], failtrig: vec![2, 1, 0],
 		minh2: EXP + 1, funding_role: false, base_conf, kinds: vec![],
-		other_commit: Some(if holder { theirs[0].compute_txid() } else { ours[0].compute_txid() }), seed_txs,
+		other_commit: Some(if holder { theirs[0].compute_txid() } else { ours[0].compute_txid() }), seed_txs, min_depth: 6,
 	};
 	if holder {
 		txs[1] = Some(ours[0].clone());
@@ -764,7 +766,7 @@ fn main() {
 		let mut log: Vec<Value> = Vec::new();
 		log.push(json!({"ev":"reset","kind":sc["kind"],"hist":sc["hist"],"scen":name,"parent":sc["parent"],"txs":sc["txs"],
 			"targets":sc["targets"],"order":sc["order"],"ard":consts.anti_reorg_delay,"minh":(1..5).map(|r| scen.minh(r)).collect::<Vec<_>>(),
-			"funding_role":scen.funding_role,"failtrig":scen.failtrig,"base_conf":scen.base_conf,
+			"funding_role":scen.funding_role,"failtrig":scen.failtrig,"base_conf":scen.base_conf,"min_depth":scen.min_depth,
 			"reloads": sc["trans"].as_array().map(|t| t.iter().map(|x| x["reload"].as_bool().unwrap_or(false)).collect::<Vec<_>>()).unwrap_or_default(),
 			"inputs": (1..5).map(|r| scen.txs[r].as_ref().map(|t| t.input.iter().map(|i| json!([scen.tx_idx(&i.previous_output.txid), i.previous_output.vout])).collect::<Vec<_>>()).unwrap_or_default()).collect::<Vec<_>>()}));
 		let res = catch_unwind(AssertUnwindSafe(|| {
